@@ -128,3 +128,62 @@ Proof.
   - destruct (negb (snd e =? "_")%string); simpl; lia.
   - exact IH.
 Qed.
+
+(* ---- append while ranging, then sort by a unique key: permutation invariant (generic) ---- *)
+Lemma flat_map_perm {E A} (f : E -> list A) : forall l l', Permutation l l' -> Permutation (flat_map f l) (flat_map f l').
+Proof.
+  intros l l' HP. induction HP; simpl; auto.
+  - apply Permutation_app_head. exact IHHP.
+  - rewrite !app_assoc. apply Permutation_app_tail. apply Permutation_app_comm.
+  - eapply Permutation_trans; eauto.
+Qed.
+
+Lemma collect_sort_det {E A} (key : A -> N) (f : E -> list A) : forall order order',
+  Permutation order order' -> NoDup (map key (flat_map f order)) ->
+  collect_sort key f order = collect_sort key f order'.
+Proof. intros order order' HP ND. unfold collect_sort. apply isort_perm; [apply flat_map_perm; exact HP|exact ND]. Qed.
+
+Lemma flat_map_single {A} : forall l : list A, flat_map (fun k => [k]) l = l.
+Proof. induction l; simpl; congruence. Qed.
+
+Lemma supported_values_det : forall order order', Permutation order order' -> NoDup order ->
+  supported_values order = supported_values order'.
+Proof.
+  intros order order' HP ND. apply collect_sort_det; [exact HP|]. rewrite flat_map_single, map_id. exact ND.
+Qed.
+
+Lemma register_flags_det {V} : forall order order' : list (N * V), Permutation order order' -> NoDup (map fst order) ->
+  register_flags order = register_flags order'.
+Proof. intros order order' HP ND. apply collect_sort_det; [exact HP|]. rewrite flat_map_single. exact ND. Qed.
+
+(* writes to the cells named by distinct keys commute *)
+Lemma bind_params_lookup {V} : forall (order : list (N * V)) m k,
+  NoDup (map fst order) ->
+  bind_params order m k = match find (fun kv => N.eqb k (fst kv)) order with Some kv => Some (snd kv) | None => m k end.
+Proof.
+  induction order as [|[k0 v0] r IH]; intros m k ND; simpl; auto.
+  inversion ND as [|? ? Hn ND']; subst. unfold bind_params in *. simpl. rewrite IH by exact ND'.
+  destruct (find (fun kv => (k =? fst kv)%N) r) as [kv|] eqn:F.
+  - destruct (N.eqb k k0) eqn:E; auto. exfalso. apply N.eqb_eq in E. subst.
+    apply find_some in F. destruct F as [Hin Hk]. apply N.eqb_eq in Hk. apply Hn. rewrite Hk. apply in_map. exact Hin.
+  - simpl. destruct (N.eqb k k0); reflexivity.
+Qed.
+
+Lemma find_perm_nodup {V} : forall (l l' : list (N * V)) k, Permutation l l' -> NoDup (map fst l) ->
+  find (fun kv => N.eqb k (fst kv)) l = find (fun kv => N.eqb k (fst kv)) l'.
+Proof.
+  intros l l' k HP. induction HP; intros ND; simpl; auto.
+  - inversion ND; subst. destruct (N.eqb k (fst x)); auto.
+  - inversion ND as [|? ? Hy ND1]; subst. inversion ND1; subst.
+    destruct (N.eqb k (fst y)) eqn:Ey, (N.eqb k (fst x)) eqn:Ex; auto.
+    exfalso. apply N.eqb_eq in Ey, Ex. apply Hy. simpl. left. congruence.
+  - rewrite IHHP1 by exact ND. apply IHHP2. eapply Permutation_NoDup; [|exact ND]. apply Permutation_map. exact HP1.
+Qed.
+
+Lemma bind_params_det {V} : forall (order order' : list (N * V)) m, Permutation order order' -> NoDup (map fst order) ->
+  forall k, bind_params order m k = bind_params order' m k.
+Proof.
+  intros order order' m HP ND k. rewrite !bind_params_lookup; auto.
+  - rewrite (find_perm_nodup order order' k HP ND). reflexivity.
+  - eapply Permutation_NoDup; [|exact ND]. apply Permutation_map. exact HP.
+Qed.
